@@ -22,6 +22,18 @@ def src(n, keyed=True):
     return lazy_dataset.new(list(range(n)))
 
 
+def _fragment(x):
+    return [x] if x % 2 else [x, x + 1000]
+
+
+def _first(x):
+    return x
+
+
+def _true(x):
+    return True
+
+
 def multiset_ok(out, n):
     return sorted(out) == list(range(n))
 
@@ -41,6 +53,12 @@ def scenario_single(kind, n, bs, epochs):
             ds = ds.shuffle(True, rng=rng)
         elif kind == 'local':
             ds = ds.shuffle(True, rng=rng, buffer_size=bs)
+        elif kind in ('local-after-unbatch2', 'local-after-unbatch3'):
+            ds = ds.batch(int(kind[-1])).unbatch().shuffle(True, rng=rng, buffer_size=bs)
+        elif kind == 'local-after-fragment':
+            ds = ds.map(_fragment).unbatch().map(_first).shuffle(True, rng=rng, buffer_size=bs)
+        elif kind == 'local-after-filter':
+            ds = ds.filter(_true).shuffle(True, rng=rng, buffer_size=bs)
         elif kind == 'onetime':
             ds = ds.shuffle(False, rng=rng)
         elif kind == 'reshuffle-items':
@@ -128,11 +146,16 @@ def _task(args):
                         bad(f'items-misaligned/{kind}', f'n={n} buffer={bs} rng answers {choices}: items() gave {out}',
                             {'choices': choices})
                     vals = [v for _, v in out]
-                if not multiset_ok(vals, n):
+                src_order = list(range(n))
+                if kind == 'local-after-fragment':
+                    src_order = [y for x in range(n) for y in _fragment(x)]
+                if sorted(vals) != sorted(src_order):
                     bad(f'not-a-permutation/{kind}', f'n={n} buffer={bs} epoch {e} rng answers {choices}: {out}',
                         {'choices': choices})
-                if kind.startswith('local'):
-                    for j, s in enumerate(vals):
+                elif kind.startswith('local'):
+                    pos = {v: i for i, v in enumerate(src_order)}
+                    for j, v in enumerate(vals):
+                        s = pos[v]
                         if s - j > bs - 1:
                             bad(f'displacement-exceeds-buffer/{kind}',
                                 f'n={n} buffer_size={bs} rng answers {choices}: example {s} emitted at position {j} ({out})',
@@ -202,12 +225,18 @@ def _task(args):
 def jobs(tier):
     q = tier == 'quick'
     out = []
-    for n in range(0, 6 if q else 7):
+    for n in range(0, 8 if q else 10):
         out.append(('single', ('onetime', n, None, 2 if n <= 4 else 1)))
         if n <= 4:
             out.append(('single', ('reshuffle', n, None, 2)))
             out.append(('single', ('reshuffle-items', n, None, 1)))
-    for n in range(0, 6 if q else 7):
+    for n in range(0, 7 if q else 8):
+        for bs in range(1, n + 2):
+            for kind in ('local-after-unbatch2', 'local-after-unbatch3', 'local-after-fragment', 'local-after-filter'):
+                if kind == 'local-after-fragment' and n > 3:
+                    continue
+                out.append(('single', (kind, n, bs, 1)))
+    for n in range(0, 8 if q else 10):
         for bs in range(1, n + 2):
             out.append(('single', ('local', n, bs, 2 if n <= 3 else 1)))
             if n <= 4:
@@ -231,7 +260,7 @@ def jobs(tier):
                 out.append(('composed', ('local', n, comp)))
     S = 40 if q else 400
     base = (common.SEED * S) % 100000
-    for n in range(0, 7 if q else 9):
+    for n in range(0, 8 if q else 10):
         out.append(('seeded', (n, list(range(base, base + S)))))
     return out
 
